@@ -252,10 +252,9 @@ def handle (j : Json) : R Json := do
           | [.str m, .bool e] => return (m, e)
           | _ => throw "bad registry entry")
         let registered ← fldStrs rj "export"
-        if !(registeredB created registered) then
-          let missing := ((created.filter (·.2)).map (·.1)).filter (fun m => !registered.contains m)
-          pre := pre ++ [jarr [Json.str "unregistered-module", jnat 0, Json.str (",".intercalate missing)]]
-        else if !(reportFollowsB registered r1) then
+        if !(allRegisteredB created registered) then
+          pre := pre ++ [jarr [Json.str "unregistered-module", jnat 0, Json.str (",".intercalate (unregistered created registered))]]
+        else if !(reportFollowsB (registeredExported created registered) r1) then
           pre := pre ++ [jarr [Json.str "lists", jnat 0, Json.str ""]]
     | .error _ => pure ()
     if pre.isEmpty && !(listsExactlyB predef n r1) then pre := pre ++ [jarr [Json.str "lists", jnat 0, Json.str ""]]
